@@ -2,3 +2,6 @@ import TinkVerif.Base.Bytes
 import TinkVerif.Model.Manager
 import TinkVerif.Lemmas.Manager
 import TinkVerif.Props.C11
+import TinkVerif.Model.Stream
+import TinkVerif.Lemmas.Stream
+import TinkVerif.Props.C07
